@@ -62,3 +62,7 @@ add("C15", "round trip through Graphviz's own JSON export: rooted port-labelled 
     "Generated chain dictionaries (parser-built and class-built) are rendered, read back by `dot -Tjson0` (which also decides acceptance) and compared as trees up to node identifiers; identifier uniqueness is checked across the graphs of a session.",
     "Trusted: Graphviz dot 2.43, particle's EvtGen->LaTeX->HTML name conversion for cell texts.",
     "DESIGN.md 4 C15")
+add("C17", "Hypothesis-generated AmpGen option ASTs rendered to text vs reference expansion (cartesian product over separately given sub-lines), pinned particle pool",
+    "Option texts are generated structure-first; event type, parameter/constant tables, the full expansion in file order, tags and couplings at every node are compared with a reference computed from the AST.",
+    "Trusted: pbt/ampgen.ref_read/ref_expand, the hand-verified name->PDG-ID pool, particle's str(). Lookup memo per worker (pure function of its key).",
+    "DESIGN.md 4 C17")
